@@ -479,6 +479,7 @@ func checkC14(w *World, c *Check, tier string) {
 			}
 		}
 	}
+	checkC14Relation(w, c, eq, clos)
 	// IRIs.Contains -> IRI.Equals
 	if ic := w.Method("IRIs", "Contains"); ic != nil {
 		found := false
@@ -493,6 +494,296 @@ func checkC14(w *World, c *Check, tier string) {
 			c.bad("C14.contains", "IRIs.Contains", w.FuncPos(ic), "IRIs.Contains does not decide membership through IRI.Equals")
 		}
 	}
+}
+
+// checkC14Relation: symmetry/reflexivity of the comparison as a decision tree, the components that must take part, the
+// shape of the per-key query value comparison, and the purity of the string fast path.
+func checkC14Relation(w *World, c *Check, eq *ssa.Function, clos []*ssa.Function) {
+	ie := w.Func("irisEqual")
+	symCalls, reflCalls := map[*ssa.Function]bool{}, map[*ssa.Function]bool{}
+	for _, f := range []*ssa.Function{ie, eq} {
+		if f == nil {
+			continue
+		}
+		name := funcName(f)
+		sym, refl, sw, rw, und, n := checkPairPredicate(w, f, symCalls, reflCalls)
+		c.stat("decision_leaves_"+name, n)
+		if und != "" {
+			c.bad("C14.sym", name, w.FuncPos(f), "cannot decide whether "+name+" treats its two operands alike: "+und)
+			continue
+		}
+		if sym {
+			c.ok("C14.sym", name, w.FuncPos(f), fmt.Sprintf("%d decision leaves; every pair that is consistent after exchanging the operands returns the same result (loop part judged by C14.query)", n))
+			symCalls[f] = true
+		} else {
+			c.bad("C14.sym", name, w.FuncPos(f), name+" is not symmetric in its operands: "+sw)
+		}
+		if refl {
+			c.ok("C14.refl", name, w.FuncPos(f), "every leaf consistent with identical operands returns true")
+			reflCalls[f] = true
+		} else {
+			c.bad("C14.refl", name, w.FuncPos(f), name+" is not reflexive: "+rw)
+		}
+	}
+	// ---- components: host (with port), path and the parsed query of BOTH operands meet in a comparison ----
+	isURL := func(t types.Type) bool {
+		n := namedOf(t)
+		return n != nil && n.Obj().Pkg() != nil && n.Obj().Pkg().Path() == "net/url" && n.Obj().Name() == "URL"
+	}
+	// which URL value (by the SSA value of the *url.URL) a string derives from, and through which component
+	var compOf func(v ssa.Value, d int) (ssa.Value, string)
+	compOf = func(v ssa.Value, d int) (ssa.Value, string) {
+		if d > 6 {
+			return nil, ""
+		}
+		switch x := v.(type) {
+		case *ssa.UnOp:
+			if fa, ok := x.X.(*ssa.FieldAddr); ok && isURL(fa.X.Type()) {
+				return fa.X, fieldNameOf(fa.X.Type(), fa.Field)
+			}
+			return compOf(x.X, d+1)
+		case *ssa.Call:
+			if cal := x.Common().StaticCallee(); cal != nil && len(x.Common().Args) >= 1 {
+				if cal.Signature.Recv() != nil && isURL(cal.Signature.Recv().Type()) {
+					return x.Common().Args[0], cal.Name() + "()"
+				}
+				return compOf(x.Common().Args[0], d+1)
+			}
+		case *ssa.Convert:
+			return compOf(x.X, d+1)
+		case *ssa.ChangeType:
+			return compOf(x.X, d+1)
+		}
+		return nil, ""
+	}
+	compared := map[string]bool{}
+	for _, f := range clos {
+		for _, call := range callsIn(f) {
+			cal := call.Common().StaticCallee()
+			if cal == nil {
+				continue
+			}
+			if cal.Signature.Recv() != nil && isURL(cal.Signature.Recv().Type()) {
+				switch cal.Name() {
+				case "Hostname", "Port":
+					c.bad("C14.components", funcName(f)+":URL."+cal.Name(), w.InstrPos(call), fmt.Sprintf("%s uses URL.%s(): the host is compared with its port as one component (two ids that differ only in the port are different)", funcName(f), cal.Name()))
+				case "Query":
+					compared["Query()@"+funcName(f)] = true
+				}
+			}
+			if cal.Name() == "EqualFold" && len(call.Common().Args) == 2 {
+				u1, c1 := compOf(call.Common().Args[0], 0)
+				u2, c2 := compOf(call.Common().Args[1], 0)
+				if u1 != nil && u2 != nil && u1 != u2 && c1 == c2 {
+					compared[c1] = true
+				}
+			}
+		}
+	}
+	for _, comp := range []string{"Host", "Path"} {
+		if compared[comp] {
+			c.ok("C14.components", comp, w.FuncPos(eq), "URL."+comp+" of the two operands is compared with strings.EqualFold")
+		} else {
+			c.bad("C14.components", comp, w.FuncPos(eq), "URL."+comp+" of the two operands is never compared: ids that differ only there are judged equal")
+		}
+	}
+	nq := 0
+	for k := range compared {
+		if strings.HasPrefix(k, "Query()@") {
+			nq++
+		}
+	}
+	if nq > 0 {
+		c.ok("C14.components", "Query", w.FuncPos(eq), "the parsed query of the operands is compared")
+	} else {
+		c.bad("C14.components", "Query", w.FuncPos(eq), "the parsed query of the operands is never compared")
+	}
+	// ---- query: the values of one key are compared as multisets ----
+	// a nest 'for x in A { for y in B { x == y } }' (each value of one side looked up in the other) is containment in one
+	// direction, which is neither symmetric nor multiset equality once a value repeats
+	if ie != nil {
+		loops := loopHeaders(ie)
+		nested := ""
+		for _, b := range ie.Blocks {
+			for _, in := range b.Instrs {
+				bo, ok := in.(*ssa.BinOp)
+				if !ok || (bo.Op != token.EQL && bo.Op != token.NEQ) || !isStringish(bo.X.Type()) {
+					continue
+				}
+				_, kx := bo.X.(*ssa.Const)
+				_, ky := bo.Y.(*ssa.Const)
+				if kx || ky {
+					continue
+				}
+				// both operands are elements of slices iterated by two different loops that both contain this block
+				hx, hy := elementLoop(bo.X, loops[b]), elementLoop(bo.Y, loops[b])
+				if hx != nil && hy != nil && hx != hy {
+					nested = w.InstrPos(bo)
+				}
+			}
+		}
+		// positive side: the complete lists are compared — sorted copies position by position, or by counting
+		sorted := 0
+		pairwise := false
+		counting := false
+		for _, call := range callsIn(ie) {
+			if cal := call.Common().StaticCallee(); cal != nil && cal.Object() != nil && cal.Object().Pkg() != nil {
+				full := cal.Object().Pkg().Path() + "." + cal.Name()
+				if full == "sort.Strings" || full == "slices.Sort" || full == "sort.Slice" || full == "sort.Sort" || full == "slices.SortFunc" {
+					sorted++
+				}
+			}
+		}
+		for _, b := range ie.Blocks {
+			for _, in := range b.Instrs {
+				switch x := in.(type) {
+				case *ssa.BinOp:
+					if (x.Op == token.EQL || x.Op == token.NEQ) && isStringish(x.X.Type()) {
+						ix, iy := elementIndex(x.X), elementIndex(x.Y)
+						if ix != nil && iy != nil && ix == iy && len(loops[b]) > 0 {
+							pairwise = true
+						}
+					}
+				case *ssa.MapUpdate:
+					if bt, ok := types.Unalias(x.Value.Type()).Underlying().(*types.Basic); ok && bt.Info()&types.IsInteger != 0 && len(loops[b]) > 0 {
+						counting = true
+					}
+				}
+			}
+		}
+		if nested == "" && !(sorted >= 2 && pairwise) && !counting {
+			c.bad("C14.query", "irisEqual:values-of-a-key:complete", w.FuncPos(ie), "the values of a repeated query key are not compared completely: neither two sorted lists compared position by position over their whole length nor a counting comparison was found (comparing only some of the values makes ids with different queries equal)")
+		} else if nested == "" {
+			c.ok("C14.query", "irisEqual:values-of-a-key:complete", w.FuncPos(ie), "sorted copies compared position by position (or counted)")
+		}
+		if nested != "" {
+			c.bad("C14.query", "irisEqual:values-of-a-key", nested, "the values of a repeated query key are compared by looking each value of one operand up among the other's (nested loops around the == at "+nested+"): with a repeated value this is containment in one direction — '?x=1&x=1' equals '?x=1&x=2' but not the other way round — not equality of multisets")
+		} else {
+			c.ok("C14.query", "irisEqual:values-of-a-key", w.FuncPos(ie), "no one-directional lookup nest over the two value lists")
+		}
+	}
+	// ---- fast path: the strings compared are the operands cut at a delimiter, nothing else ----
+	for _, call := range callsIn(eq) {
+		cal := call.Common().StaticCallee()
+		if cal == nil || cal.Name() != "EqualFold" {
+			continue
+		}
+		for ai, a := range call.Common().Args {
+			if msg := fastPathImpure(w, a, 0, map[ssa.Value]bool{}); msg != "" {
+				c.bad("C14.fastpath", fmt.Sprintf("IRI.Equals:operand#%d", ai+1), w.InstrPos(call), "the string compared by the fast path "+msg+": the fast path then disagrees with the component-wise comparison (e.g. a '/' that belongs to the query is dropped)")
+			} else {
+				c.ok("C14.fastpath", fmt.Sprintf("IRI.Equals:operand#%d", ai+1), w.InstrPos(call), "operand cut at the fragment / scheme delimiter only")
+			}
+		}
+	}
+}
+
+// elementLoop: v is an element of a slice being iterated (go/ssa range-over-slice: load of &s[i] with i the index phi of
+// a loop header in hs); returns that header.
+func elementLoop(v ssa.Value, hs map[*ssa.BasicBlock]bool) *ssa.BasicBlock {
+	u, ok := v.(*ssa.UnOp)
+	if !ok || u.Op != token.MUL {
+		return nil
+	}
+	ia, ok := u.X.(*ssa.IndexAddr)
+	if !ok {
+		return nil
+	}
+	idx := ia.Index
+	if bo, ok := idx.(*ssa.BinOp); ok {
+		idx = bo.X
+	}
+	var phi *ssa.Phi
+	switch x := idx.(type) {
+	case *ssa.Phi:
+		phi = x
+	case *ssa.BinOp:
+		phi, _ = x.X.(*ssa.Phi)
+	}
+	if phi == nil {
+		// rangeindex loops: index = phi + 1 computed in the header
+		if bo, ok := ia.Index.(*ssa.BinOp); ok {
+			phi, _ = bo.X.(*ssa.Phi)
+		}
+	}
+	if phi != nil && hs[phi.Block()] {
+		return phi.Block()
+	}
+	return nil
+}
+
+// elementIndex: v is a load of &s[i]; returns the index value i.
+func elementIndex(v ssa.Value) ssa.Value {
+	u, ok := v.(*ssa.UnOp)
+	if !ok || u.Op != token.MUL {
+		return nil
+	}
+	ia, ok := u.X.(*ssa.IndexAddr)
+	if !ok {
+		return nil
+	}
+	return ia.Index
+}
+
+// fastPathImpure follows a string back to the operand: slicing at computed positions, conversions and phi are pure;
+// a call of a package function is followed through its returns; a strings.Trim*/Replace*/To* call is a rewrite.
+func fastPathImpure(w *World, v ssa.Value, d int, seen map[ssa.Value]bool) string {
+	if d > 12 || seen[v] {
+		return ""
+	}
+	seen[v] = true
+	switch x := v.(type) {
+	case *ssa.Parameter, *ssa.Const:
+		return ""
+	case *ssa.Convert:
+		return fastPathImpure(w, x.X, d+1, seen)
+	case *ssa.ChangeType:
+		return fastPathImpure(w, x.X, d+1, seen)
+	case *ssa.Slice:
+		return fastPathImpure(w, x.X, d+1, seen)
+	case *ssa.Phi:
+		for _, e := range x.Edges {
+			if m := fastPathImpure(w, e, d+1, seen); m != "" {
+				return m
+			}
+		}
+		return ""
+	case *ssa.Call:
+		cal := x.Common().StaticCallee()
+		if cal == nil {
+			return "passes through a dynamic call"
+		}
+		if w.InPkg(cal) && cal.Blocks != nil {
+			// the callee's returns, with its parameters standing for the arguments
+			for _, rb := range returnBlocks(cal) {
+				ret := rb.Instrs[len(rb.Instrs)-1].(*ssa.Return)
+				for _, r := range ret.Results {
+					if isStringish(r.Type()) {
+						if m := fastPathImpure(w, r, d+1, seen); m != "" {
+							return m + " (in " + funcName(cal) + ")"
+						}
+					}
+				}
+			}
+			for _, a := range x.Common().Args {
+				if isStringish(a.Type()) {
+					if m := fastPathImpure(w, a, d+1, seen); m != "" {
+						return m
+					}
+				}
+			}
+			return ""
+		}
+		full := cal.Name()
+		if cal.Object() != nil && cal.Object().Pkg() != nil {
+			full = cal.Object().Pkg().Path() + "." + cal.Name()
+		}
+		if strings.HasPrefix(full, "strings.Trim") || strings.HasPrefix(full, "strings.Replace") || strings.HasPrefix(full, "strings.To") || full == "strings.Map" || strings.HasPrefix(full, "path") {
+			return "is rewritten with " + full
+		}
+		return ""
+	}
+	return ""
 }
 
 // usesCaseSensitively follows the loads of a URL component and reports a use that compares it (==, !=, <, …)
@@ -663,6 +954,51 @@ func checkC17(w *World, c *Check, tier string) {
 		c.ok("C17.max", "key=max(published,updated)", w.InstrPos(final), e1)
 	} else {
 		c.bad("C17.max", "key=max(published,updated)", w.InstrPos(final), "the key is not the later of published/updated: "+e1)
+	}
+	// (paths) apart from the key comparison, a result may depend only on whether the converted operands are nil / the
+	// conversion failed: any other condition that decides a return (identity, Equals, a type test …) makes the relation
+	// depend on something that is not the key, and the strict-weak-order argument no longer applies
+	nilTestOf := func(cond ssa.Value) bool {
+		bo, ok := cond.(*ssa.BinOp)
+		if !ok || (bo.Op != token.EQL && bo.Op != token.NEQ) {
+			return false
+		}
+		isNilK := func(v ssa.Value) bool { k, ok := v.(*ssa.Const); return ok && k.Value == nil }
+		var other ssa.Value
+		switch {
+		case isNilK(bo.Y):
+			other = bo.X
+		case isNilK(bo.X):
+			other = bo.Y
+		default:
+			return false
+		}
+		// the tested value is a result of a conversion call on exactly one parameter
+		ex, ok := other.(*ssa.Extract)
+		if !ok {
+			return false
+		}
+		call, ok := ex.Tuple.(*ssa.Call)
+		if !ok || len(call.Common().Args) != 1 {
+			return false
+		}
+		a := call.Common().Args[0]
+		return a == ssa.Value(p0) || a == ssa.Value(p1)
+	}
+	for ri, rb := range returnBlocks(f) {
+		bad := ""
+		for _, g := range rawGuards(rb) {
+			if !nilTestOf(g.cond) {
+				bad = fmt.Sprintf("the result returned at %s depends on the condition %s at %s, which is neither the key comparison nor a nil/conversion-error test of an operand", w.InstrPos(rb.Instrs[len(rb.Instrs)-1]), shortVal(g.cond), w.InstrPos(g.block.Instrs[len(g.block.Instrs)-1]))
+			}
+		}
+		// a phi-merged result: every incoming constant must come from a nil-test diamond too
+		key := fmt.Sprintf("return#%d", ri+1)
+		if bad != "" {
+			c.bad("C17.paths", key, w.InstrPos(rb.Instrs[len(rb.Instrs)-1]), bad)
+		} else {
+			c.ok("C17.paths", key, w.InstrPos(rb.Instrs[len(rb.Instrs)-1]), "decided by nil/conversion tests and the key comparison only")
+		}
 	}
 	// nil cases by abstract interpretation
 	objPtr := types.NewPointer(w.Named("Object"))
